@@ -34,4 +34,133 @@ theorem generateCode_congr_models (c : RenderCfg) (o : RenderOracles) {g₁ g₂
   unfold generateCode
   simp only [renderLevel_congr_models c o h, find?_congr h, h]
 
+/-! ## 2. name maps -/
+
+/-- the class name currently recorded for index `i` (`RefEnv.name?`, and the expression used by `convertNameAt` and
+    `renderLevel`) -/
+def lookup (names : NameMap) (i : String) : Option String := ((names.find? (·.1 == i)).map (·.2)).join
+
+theorem name?_eq (names : NameMap) (inj : List (String × String)) (i : String) :
+    RefEnv.name? ⟨names, inj⟩ i = lookup names i := rfl
+
+@[simp] theorem lookup_nil (i : String) : lookup [] i = none := rfl
+
+theorem lookup_cons (p : String × Option String) (names : NameMap) (i : String) :
+    lookup (p :: names) i = if p.1 = i then p.2 else lookup names i := by
+  unfold lookup
+  by_cases h : p.1 = i <;> simp [h]
+
+theorem set_keys (names : NameMap) (i : String) (v : Option String) :
+    (NameMap.set names i v).map (·.1) = names.map (·.1) := by
+  unfold NameMap.set
+  rw [List.map_map]
+  apply List.map_congr_left
+  intro p _
+  by_cases h : p.1 = i <;> simp [h]
+
+theorem lookup_set_ne (names : NameMap) {i j : String} (v : Option String) (h : j ≠ i) :
+    lookup (NameMap.set names i v) j = lookup names j := by
+  induction names with
+  | nil => rfl
+  | cons p rest ih =>
+    have e : NameMap.set (p :: rest) i v = (if p.1 == i then (i, v) else p) :: NameMap.set rest i v := rfl
+    rw [e, lookup_cons, lookup_cons, ih]
+    by_cases hp : p.1 = i
+    · subst hp
+      have : ¬ p.1 = j := fun e => h e.symm
+      simp [this]
+    · simp [hp]
+
+theorem lookup_set_self (names : NameMap) (i : String) (v : Option String) :
+    lookup (NameMap.set names i v) i = if names.any (·.1 == i) then v else none := by
+  induction names with
+  | nil => rfl
+  | cons p rest ih =>
+    have e : NameMap.set (p :: rest) i v = (if p.1 == i then (i, v) else p) :: NameMap.set rest i v := rfl
+    rw [e, lookup_cons, ih]
+    by_cases hp : p.1 = i
+    · simp [hp]
+    · have hb : (p.1 == i) = false := by simpa using hp
+      simp only [hb, List.any_cons, Bool.false_or, Bool.false_eq_true, if_false, hp]
+
+theorem any_of_lookup {names : NameMap} {i n : String} (h : lookup names i = some n) :
+    names.any (·.1 == i) = true := by
+  induction names with
+  | nil => simp at h
+  | cons p rest ih =>
+    rw [lookup_cons] at h
+    by_cases hp : p.1 = i
+    · simp [hp]
+    · simp only [hp, if_false] at h
+      simp [ih h]
+
+theorem mem_of_lookup {names : NameMap} {i n : String} (h : lookup names i = some n) : (i, some n) ∈ names := by
+  induction names with
+  | nil => simp at h
+  | cons p rest ih =>
+    rw [lookup_cons] at h
+    by_cases hp : p.1 = i
+    · simp only [hp, if_true] at h
+      have : p = (i, some n) := by rw [← hp, ← h]
+      simp [this]
+    · simp only [hp, if_false] at h
+      exact List.mem_cons_of_mem _ (ih h)
+
+/-- with pairwise distinct keys an entry is what `lookup` finds -/
+theorem lookup_of_mem {names : NameMap} (hnd : (names.map (·.1)).Nodup) {p : String × Option String}
+    (hp : p ∈ names) : lookup names p.1 = p.2 := by
+  induction names with
+  | nil => simp at hp
+  | cons q rest ih =>
+    rw [lookup_cons]
+    simp only [List.map_cons, List.nodup_cons] at hnd
+    rcases List.mem_cons.mp hp with rfl | hm
+    · simp
+    · have : ¬ q.1 = p.1 := fun e => hnd.1 (e ▸ List.mem_map_of_mem hm)
+      simp [this, ih hnd.2 hm]
+
+/-- writing back the value that is already there changes nothing (distinct keys) -/
+theorem set_same {names : NameMap} (hnd : (names.map (·.1)).Nodup) {i n : String} (h : lookup names i = some n) :
+    NameMap.set names i (some n) = names := by
+  unfold NameMap.set
+  conv => rhs; rw [← List.map_id names]
+  apply List.map_congr_left
+  intro p hp
+  by_cases hpi : p.1 = i
+  · have h2 := lookup_of_mem hnd hp
+    rw [hpi, h] at h2
+    have : p = (i, some n) := by rw [← hpi, h2]
+    rw [this]; simp
+  · have hb : (p.1 == i) = false := by simpa using hpi
+    simp [hb]
+
+/-- `convertNameAt` succeeds exactly by converting the recorded name -/
+theorem convertNameAt_ok {c : RenderCfg} {o : RenderOracles} {names N2 : NameMap} {i : String}
+    (h : convertNameAt c o names i = .ok N2) :
+    ∃ n n', lookup names i = some n ∧ convertClassName c o n = .ok n' ∧ N2 = NameMap.set names i (some n') := by
+  unfold convertNameAt at h
+  change (match lookup names i with
+    | none => Except.error PyErr.typeError
+    | some n => do pure (names.set i (some (← convertClassName c o n)))) = _ at h
+  cases hl : lookup names i with
+  | none => rw [hl] at h; cases h
+  | some n =>
+    rw [hl] at h
+    cases hc : convertClassName c o n with
+    | error e => simp [hc, bind, Except.bind] at h
+    | ok n' =>
+      simp only [hc, bind, Except.bind, pure, Except.pure] at h
+      injection h with h
+      exact ⟨n, n', rfl, hc, h.symm⟩
+
+theorem convertNameAt_eq {c : RenderCfg} {o : RenderOracles} {names : NameMap} {i n n' : String}
+    (hl : lookup names i = some n) (hc : convertClassName c o n = .ok n') :
+    convertNameAt c o names i = .ok (NameMap.set names i (some n')) := by
+  unfold convertNameAt
+  change (match lookup names i with
+    | none => Except.error PyErr.typeError
+    | some n => do pure (names.set i (some (← convertClassName c o n)))) = _
+  rw [hl]
+  simp [hc, bind, Except.bind, pure, Except.pure]
+
 end J2M.Rend2
